@@ -43,6 +43,7 @@ func init() {
 		c12CallbackBeforeTeardown(c)  // … and by websocket/webtransport DoClose, handed over by transport.Close
 		c12CloseWaitsForBuffer(c)     // closeTransport's callback reports 'forced close'
 		c03PeerCloseClassification(c)
+		c03WhoClosesTransport(c)
 	})
 }
 
@@ -730,4 +731,31 @@ func c03PeerCloseClassification(c *core.Ctx) {
 		}
 	}
 	c.Need(R, "close classifiers on read-error edges", sites, 3)
+}
+
+// c03WhoClosesTransport — C03.11: who may declare a transport closed. The
+// transport's close event is what the session reports as 'transport close';
+// an application-initiated Close must reach the session through the callback
+// handed to DoClose ('forced close') first.
+func c03WhoClosesTransport(c *core.Ctx) {
+	const R = "C03.11"
+	c.Rule(R, "WHO(transport.OnClose): a transport is declared closed (OnClose → Emit(\"close\") → session reason 'transport close') only by the connection-close listeners installed by websocket.Construct / webTransport.Construct, by polling.OnData on a client close packet, by polling.DoClose's completion closure (after the caller's callback) and by polling.OnClose's super call; transport.Close itself only marks 'closing' and delegates to DoClose — an OnClose there pre-empts the 'forced close' callback of a buffered polling close (wrong reason, session unregistered before its close packet is delivered)")
+	allowed := map[string]bool{
+		"transports.(*websocket).Construct":    true,
+		"transports.(*webTransport).Construct": true,
+		"transports.(*polling).OnData":         true,
+		"transports.(*polling).OnClose":        true,
+		"transports.(*polling).DoClose":        true,
+	}
+	n := 0
+	for _, u := range c.P.Units {
+		for _, cl := range u.Calls() {
+			if cl.Name != "OnClose" || cl.Recv == nil || emitterClass(cl.RecvTypeName()) != "transport" {
+				continue
+			}
+			n++
+			c.Check(R, keyf("%s/%s.OnClose()", u.Key, selPath(cl.Recv)), cl.Pos(), allowed[u.Root().Key], "only the connection-close listeners, the client close packet and polling's DoClose completion may declare a transport closed")
+		}
+	}
+	c.Need(R, "call sites of a transport's OnClose", n, 5)
 }
